@@ -16,4 +16,5 @@ pub open spec fn lehmer_ok(m: LehmerMatrix, a: int, b: int) -> bool {
     &&& m.0 as int * m.3 as int - m.1 as int * m.2 as int == (if m.4 { 1int } else { -1int })
     &&& m.0 <= m.2
     &&& m.1 <= m.3
+    &&& m.0 as int <= a && m.1 as int <= a && m.2 as int <= a && m.3 as int <= a
 }
